@@ -39,6 +39,9 @@ type c09Pair struct {
 	newView  gptView
 	secOff   []int64 // sector id (1-based) -> byte offset
 	rec      map[string]any
+	// the history behind the old state and the way the new table comes about:
+	repaired bool // the old disk lost its primary header, was read (from the backup) and the table read was written back
+	rmw      bool // the new table is the table READ from the old disk with partitions / GUID replaced (read-modify-write)
 }
 
 func c09Region(off int64, lss int, diskSize int64) string {
@@ -72,11 +75,34 @@ func c09Record(p *c09Pair) error {
 			return fmt.Errorf("old table does not read back: %w", err)
 		}
 		p.oldView = viewGPT(t)
+		if p.repaired {
+			d.WriteAt(make([]byte, 8), lss) // the primary header loses its signature
+			rt, err := gpt.Read(file.New(d, true), p.lss, p.lss)
+			if err != nil {
+				return fmt.Errorf("old table is not recovered from the backup: %w", err)
+			}
+			if err := rt.Write(d, p.diskSize); err != nil {
+				return fmt.Errorf("writing the recovered table back: %w", err)
+			}
+			rt2, err := gpt.Read(file.New(d, true), p.lss, p.lss)
+			if err != nil || !viewGPT(rt2).equal(p.oldView) {
+				return fmt.Errorf("repaired disk does not read back as the old table: %v", err)
+			}
+		}
 	}
 	p.oldImg = d.Clone()
 	d.ResetLog()
 	d.KeepData = true
-	if err := cloneGPT(p.new).Write(d, p.diskSize); err != nil {
+	nw := cloneGPT(p.new)
+	if p.rmw && p.old != nil {
+		rt, err := gpt.Read(file.New(d, true), p.lss, p.lss)
+		if err != nil {
+			return fmt.Errorf("read for read-modify-write: %w", err)
+		}
+		rt.Partitions, rt.GUID, rt.ProtectiveMBR = nw.Partitions, nw.GUID, nw.ProtectiveMBR
+		nw = rt
+	}
+	if err := nw.Write(d, p.diskSize); err != nil {
 		return fmt.Errorf("write new: %w", err)
 	}
 	t, err := gpt.Read(file.New(d, true), p.lss, p.lss)
@@ -164,6 +190,14 @@ func c09Pairs(c *core.Ctx) []*c09Pair {
 	np := func(t *gpt.Table) *gpt.Table { x := cloneGPT(t); x.ProtectiveMBR = false; return x }
 	add("no protective MBR, 2->3 parts", 512, 10*MiB, np(a), np(b))
 	add("protective MBR only in the old table, rename", 512, 10*MiB, a, np(b2))
+	// histories: the new table is the one read from the disk and modified; the old disk had been repaired from
+	// its backup copy before (Read fell back to the backup, the table it returned was written back)
+	add("read-modify-write, 2->3 parts", 512, 10*MiB, a, b)
+	ps[len(ps)-1].rmw = true
+	add("repaired from the backup, then read-modify-write 2->3 parts", 512, 10*MiB, a, b)
+	ps[len(ps)-1].rmw, ps[len(ps)-1].repaired = true, true
+	add("repaired from the backup, then a fresh table, rename", 512, 10*MiB, a, b2)
+	ps[len(ps)-1].repaired = true
 	if c.Tier == "thorough" {
 		add("no protective MBR, blank->2 parts", 512, 10*MiB, nil, np(a))
 		add("4k sectors 2->4", 4096, 64*MiB, genGPT(r, ds(64*MiB, 4096), 4096, 2, nil, true), genGPT(r, ds(64*MiB, 4096), 4096, 4, nil, true))
